@@ -462,4 +462,169 @@ theorem C20_beyond_xep :
   simp [Form.xepType, renderForm, Form.formType, Form.dataFields, formTypeVar, renderField, sortStrings,
     renderFeat, lt]
 
+/-! ### Raw octets (round F, seeded C20-17)
+
+XEP-0115 5.1 hashes the octets of every string; the model's strings are byte lists and
+`verImpl` only concatenates and sorts them.  Stated as theorems: every item of an info appears
+*verbatim* (as a contiguous piece) in the hashed string, so no byte of any category, type,
+lang, name, feature, FORM_TYPE, var or value is ever rewritten.  The fact `octetProbe` says the
+same of the real code for 33 transformation-sensitive texts at every kind of position. -/
+
+theorem infix_flatMap_of_mem {α} (f : α → Bytes) {a : α} {l : List α} (h : a ∈ l) :
+    f a <:+: l.flatMap f := by
+  induction l with
+  | nil => cases h
+  | cons b l ih =>
+    rw [List.flatMap_cons]
+    rcases List.mem_cons.mp h with rfl | h
+    · exact ⟨[], l.flatMap f, by simp⟩
+    · obtain ⟨s, t, e⟩ := ih h
+      exact ⟨f b ++ s, t, by simp [← e]⟩
+
+/-- **every identity is hashed verbatim**: `category/type/lang/name<` with the octets as given -/
+theorem C20_identity_verbatim (i : Info) (d : Identity) (h : d ∈ i.ids) : renderId d <:+: verImpl i := by
+  have hm : d ∈ i.ids.mergeSort idLe := List.mem_mergeSort.mpr h
+  obtain ⟨s, t, e⟩ := infix_flatMap_of_mem renderId hm
+  exact ⟨s, t ++ ((sortStrings i.feats).flatMap renderFeat ++ (i.forms.mergeSort formLe).flatMap renderForm),
+    by simp only [verImpl, ← e, List.append_assoc]⟩
+
+/-- **every feature is hashed verbatim** -/
+theorem C20_feature_verbatim (i : Info) (f : Bytes) (h : f ∈ i.feats) : renderFeat f <:+: verImpl i := by
+  have hm : f ∈ sortStrings i.feats := List.mem_mergeSort.mpr h
+  obtain ⟨s, t, e⟩ := infix_flatMap_of_mem renderFeat hm
+  exact ⟨(i.ids.mergeSort idLe).flatMap renderId ++ s, t ++ (i.forms.mergeSort formLe).flatMap renderForm,
+    by simp only [verImpl, ← e, List.append_assoc]⟩
+
+/-- **every form is hashed verbatim** (its FORM_TYPE, then its data fields) … -/
+theorem C20_form_verbatim (i : Info) (F : Form) (h : F ∈ i.forms) : renderForm F <:+: verImpl i := by
+  have hm : F ∈ i.forms.mergeSort formLe := List.mem_mergeSort.mpr h
+  obtain ⟨s, t, e⟩ := infix_flatMap_of_mem renderForm hm
+  exact ⟨(i.ids.mergeSort idLe).flatMap renderId ++ (sortStrings i.feats).flatMap renderFeat ++ s, t,
+    by simp only [verImpl, ← e, List.append_assoc]⟩
+
+/-- … and inside it every data field: `var<` and every value followed by `<`, octets as given -/
+theorem C20_field_verbatim (F : Form) (fd : Field) (h : fd ∈ F.dataFields) (v : Bytes) (hv : v ∈ fd.values) :
+    (fd.var ++ lt) <:+: renderForm F ∧ renderFeat v <:+: renderForm F := by
+  have hm : fd ∈ F.dataFields.mergeSort fieldLe := List.mem_mergeSort.mpr h
+  obtain ⟨s, t, e⟩ := infix_flatMap_of_mem renderField hm
+  have hvm : v ∈ sortStrings fd.values := List.mem_mergeSort.mpr hv
+  obtain ⟨s', t', e'⟩ := infix_flatMap_of_mem renderFeat hvm
+  refine ⟨⟨F.formType ++ lt ++ s, (sortStrings fd.values).flatMap renderFeat ++ t, ?_⟩,
+    ⟨F.formType ++ lt ++ s ++ (fd.var ++ lt) ++ s', t' ++ t, ?_⟩⟩
+  · simp only [renderForm, ← e, renderField, List.append_assoc]
+  · simp only [renderForm, ← e, renderField, ← e', List.append_assoc]
+
+/-- regenerated fact (probe): for each kind of hashed position, no transformation-sensitive
+text (not in NFC / NFKC, case pairs, white space, entity-like, zero-width, invalid UTF-8 …) is
+hashed as anything but its octets by the real code -/
+theorem C20_gen_octets :
+    Generated.C20.octetProbe = some (octetKinds.map fun k => (k, 0)) := by decide
+
+/-! ### Operations on the forms between decoding and hashing (round F, seeded C20-16) -/
+
+/-- the code: whatever an application does with the forms of an info (encode, read, `Set`,
+`Submit`) the hashed string is that of the info as it was built / decoded -/
+theorem C20_history_irrelevant (norm : Field → List Bytes) (i : Info) :
+    verImpl (i.afterFormOps implFormOpsWrite norm) = verImpl i := by
+  simp [Info.afterFormOps, implFormOpsWrite]
+
+/-- a form whose wire values already are what their types make of them is not affected even
+by an implementation that writes the typed values back … -/
+theorem C20_writeback_normal_form (norm : Field → List Bytes) (i : Info)
+    (h : ∀ F ∈ i.forms, ∀ f ∈ F.fields, norm f = f.values) :
+    i.afterFormOps true norm = i := by
+  cases i with
+  | mk ids feats forms =>
+    simp only [Info.afterFormOps, if_true]
+    congr
+    conv => rhs; rw [← List.map_id forms]
+    apply List.map_congr_left
+    intro F hF
+    cases F with
+    | mk fields =>
+      simp only [Form.writeBack, id]
+      congr
+      conv => rhs; rw [← List.map_id fields]
+      apply List.map_congr_left
+      intro f hf
+      cases f with
+      | mk var values => simp [h ⟨fields⟩ hF ⟨var, values⟩ hf]
+
+/-- … **but any other form is**: a boolean field sent as `1` is hashed as `true` afterwards
+(the class of the seeded change "iterate the fields by pointer in TokenReader / Submit") -/
+theorem C20_writeback_changes_hash :
+    ∃ i : Info, verImpl (i.afterFormOps true normBool) ≠ verImpl i := by
+  refine ⟨⟨[], [], [⟨[⟨[0x62], [[0x31]]⟩]⟩]⟩, ?_⟩
+  simp [Info.afterFormOps, Form.writeBack, normBool, verImpl, renderForm, Form.formType, Form.dataFields,
+    formTypeVar, renderField, sortStrings, renderFeat, lt]
+
+/-- regenerated fact (probe): none of the operations of `form.Data` - run on the forms of
+constructed and decoded infos whose wire values are not in normal form - changes the form as
+the peer sent it -/
+theorem C20_gen_form_ops_untouched :
+    Generated.C20.formOpWrites = some (formOpNames.map fun n => (n, implFormOpsWrite)) := by decide
+
+/-! ### Equality with XEP-0115 5.1 in the XEP's own vocabulary (round F, review C20-3) -/
+
+theorem all₂_imp_mem {α β} {R S : α → β → Prop} {l : List α} {l' : List β}
+    (h : ∀ a ∈ l, ∀ b, R a b → S a b) (hr : All₂ R l l') : All₂ S l l' := by
+  induction hr with
+  | nil => exact .nil
+  | cons hab _ ih =>
+    exact .cons (h _ (by simp) _ hab) (ih fun a ha b => h a (by simp [ha]) b)
+
+/-- **the implementation equals the construction of XEP-0115 5.1 written in the XEP's own
+vocabulary** - for every info whose forms are forms in the XEP's sense (each has exactly one
+`FORM_TYPE` field with exactly one value: the side condition names what 5.1 presupposes; what
+the code does outside it is `C20_beyond_xep` and the known findings).  Unlike `Spec`, `XepSpec`
+shares neither the rendering of identities nor the extraction of the form type with `verImpl`. -/
+theorem C20_equals_xep_spec (i : Info) (hx : ∀ F ∈ i.forms, ∃ t, F.xepType = some t) :
+    XepSpec i (verImpl i) := by
+  obtain ⟨ids, feats, forms, rs, hids, hfeats, hforms, hrs, hs⟩ := C20_equals_spec i
+  have hmem : ∀ F ∈ forms, F ∈ i.forms := fun F h => hforms.1.subset h
+  refine ⟨ids, feats, forms, rs, hids, hfeats, hforms.1, ?_, ?_, ?_⟩
+  · refine List.Pairwise.imp_of_mem ?_ hforms.2
+    intro a b ha hb hab
+    obtain ⟨x, hxa⟩ := hx a (hmem a ha)
+    obtain ⟨y, hyb⟩ := hx b (hmem b hb)
+    refine ⟨x, y, hxa, hyb, ?_⟩
+    have e1 := (C20_formType_is_xep a x hxa).1
+    have e2 := (C20_formType_is_xep b y hyb).1
+    simpa [formLe, e1, e2] using hab
+  · refine all₂_imp_mem ?_ hrs
+    intro F hF r hr
+    obtain ⟨t, ht⟩ := hx F (hmem F hF)
+    obtain ⟨fields, rs', h1, h2, h3⟩ := hr
+    exact ⟨t, fields, rs', ht, h1, h2, by rw [h3, (C20_formType_is_xep F t ht).1]⟩
+  · rw [hs]
+    have e : renderId = xepIdentity := funext C20_identity_is_xep
+    rw [e]
+    rfl
+
+/-- non-vacuity: the complex example of XEP-0115 5.3 in miniature - two identities, two
+features, a form with FORM_TYPE and a multi-valued field - satisfies the side condition -/
+example : ∀ F ∈ (⟨[⟨[1], [2], [], [3]⟩], [[5], [4]], [⟨[⟨formTypeVar, [[7]]⟩, ⟨[8], [[2], [1]]⟩]⟩]⟩ : Info).forms,
+    ∃ t, F.xepType = some t := by
+  intro F hF
+  simp only [List.mem_singleton] at hF
+  subst hF
+  exact ⟨[7], by simp [Form.xepType, formTypeVar]⟩
+
+/-- … and the construction determines the string: for a well-formed info whose forms are forms
+in the XEP's sense, anything that satisfies `XepSpec` is what the code hashes -/
+theorem C20_xep_spec_unique (i : Info) (wf : i.WF) (s : Bytes) (h : XepSpec i s) : s = verImpl i := by
+  obtain ⟨ids, feats, forms, rs, hids, hfeats, hperm, hpw, hrs, hs⟩ := h
+  apply C20_spec_unique i wf
+  refine ⟨ids, feats, forms, rs, hids, hfeats, ⟨hperm, ?_⟩, ?_, ?_⟩
+  · refine List.Pairwise.imp ?_ hpw
+    rintro a b ⟨x, y, hxa, hyb, hle⟩
+    simpa [formLe, (C20_formType_is_xep a x hxa).1, (C20_formType_is_xep b y hyb).1] using hle
+  · refine all₂_imp_mem ?_ hrs
+    rintro F _ r ⟨t, fields, rs', ht, h1, h2, h3⟩
+    exact ⟨fields, rs', h1, h2, by rw [h3, (C20_formType_is_xep F t ht).1]⟩
+  · rw [hs]
+    have e : renderId = xepIdentity := funext C20_identity_is_xep
+    rw [e]
+    rfl
+
 end XmppModel.Props.C20
